@@ -125,10 +125,12 @@ func newPopulation() *Population {
 }
 
 func (p *Population) NextNodeId() int {
+	verifYield("node_id")
 	return int(atomic.AddInt32(&p.nextNodeId, 1))
 }
 
 func (p *Population) NextInnovationNumber() int64 {
+	verifYield("innovation_number")
 	return atomic.AddInt64(&p.nextInnovNum, 1)
 }
 
@@ -136,6 +138,7 @@ func (p *Population) StoreInnovation(innovation Innovation) {
 	p.mutex.Lock()
 	defer p.mutex.Unlock()
 	p.innovations = append(p.innovations, innovation)
+	verifInnovationStored(p, innovation)
 }
 
 func (p *Population) Innovations() []Innovation {
@@ -268,6 +271,7 @@ func (p *Population) speciate(ctx context.Context, organisms []*Organism) error 
 				createFirstSpecies(p, currOrg)
 			}
 		}
+		verifSpeciated(p, currOrg)
 	}
 
 	return nil
